@@ -47,9 +47,10 @@ import (
 // (3) a fault point of the generated plan.
 //
 // Oracle: the grain type itself maintains identity -> set of (node, activation#),
-// inserting when OnActivate is about to return nil and removing on entry of
-// OnDeactivate. Two members on different nodes = two live instances at one
-// moment. After settle the registry record must name the holder, and a later
+// inserting when OnActivate is about to return nil and removing when
+// OnDeactivate RETURNS (the hook takes a generated few milliseconds: an instance
+// that is still flushing its state is still an instance). Two members on
+// different nodes = two instances at one moment. After settle the registry record must name the holder, and a later
 // send must succeed and leave exactly one registered holder.
 // ---------------------------------------------------------------------------
 
@@ -101,6 +102,8 @@ var c30OpName = [c30NOps]string{"tell", "ask", "identity", "kill-tell", "kill-as
 //	unowned-activation-by-actorSystem.recreateGrainOnce:remote-request-on-stale-view
 //	    the remote-activation handler activated the grain although the record does
 //	    not name its node (it never checks; the requester's view was stale)
+//	unsafe-removal-by-<G>:not-its-own-claim
+//	    a roll-back G removed a record that was written by another call (goroutine)
 //	unsafe-removal-by-<G>:foreign-record
 //	    G (a roll-back or deactivate) removed a record that names another node
 //	unsafe-removal-by-actorSystem.tryRemoteGrainActivation:owner-alive
@@ -112,6 +115,23 @@ var c30OpName = [c30NOps]string{"tell", "ask", "identity", "kill-tell", "kill-as
 //	record-overwritten-by-publish:<F> | record-overwritten-by-claim:<F> | record-overwritten-by-put:<F>
 //	    any other PutGrain that changed the owner of an existing record
 //	    (publication by a live holder / a PutGrain issued by tryClaimGrain / other)
+//
+// Two more, introduced when the holder interval was extended to the RETURN of
+// OnDeactivate:
+//
+//	record-removed-before-ondeactivate-returned-by-grainPID.deactivate
+//	    deactivate removed the registry record although the OnDeactivate hook of
+//	    that very deactivation had not returned yet (the unchanged tree removes
+//	    the record only after the hook returned and the local entry was deleted)
+//	second-activation-while-first-in-ondeactivate:<first anomaly | no-registry-anomaly>
+//	    family prefix of a "two nodes" violation in which every conflicting
+//	    instance on another node was inside OnDeactivate when the new activation
+//	    succeeded; never absorbed by the patterns listed for the families above
+const (
+	fpC30EarlyRemove = "record-removed-before-ondeactivate-returned-by-"
+	fpC30Draining    = "second-activation-while-first-in-ondeactivate:"
+)
+
 const (
 	fpC30Removal   = "unsafe-removal-by-"
 	fpC30Overwrite = "record-overwritten-by-"
@@ -250,6 +270,7 @@ type c30Case struct {
 	NoisePm    int         `json:"noise_pm"`    // per-mille probability of a pause at a registry noise point
 	NoiseSleep int         `json:"noise_sleep"` // max pause in microseconds
 	ProbeNode  int         `json:"probe_node"`
+	DeactUs    int         `json:"deact_us"` // how long OnDeactivate takes (microseconds); the instance is held until it returns
 }
 
 // c30Gen returns the generator of a unit. lifecycle=false: activation races
@@ -330,6 +351,11 @@ func c30GenCase(t *rapid.T, lifecycle bool) c30Case {
 	c.NoisePm = rapid.SampledFrom([]int{0, 100, 300, 600}).Draw(t, "noisePm")
 	c.NoiseSleep = rapid.SampledFrom([]int{0, 100, 500, 2000}).Draw(t, "noiseSleep")
 	c.ProbeNode = rapid.IntRange(0, c.Nodes-1).Draw(t, "probeNode")
+	if withKill {
+		// a slow OnDeactivate: sends from the other nodes land while the first
+		// holder is still inside its hook
+		c.DeactUs = rapid.SampledFrom([]int{0, 1000, 3000, 8000, 8000, 20000}).Draw(t, "deactUs")
+	}
 	return c
 }
 
@@ -363,6 +389,9 @@ type c30Run struct {
 	opSeq    [c30MaxNodes][c30NKinds]int
 	claimed  map[string]bool // id|node -> node holds a successful claim that it has not published / released yet
 	claimers map[string]map[int]bool
+	// draining[id]: members of holders[id] that are inside OnDeactivate (the hook
+	// has been entered and has not returned yet); they still hold the instance
+	draining map[string]map[c30Holder]bool
 	// anomaly[id]: fingerprint of the first protocol anomaly seen for id
 	anomaly map[string]string
 	// lastWrite[id|node]: last registry write of that node on id ("claim", "put" or "remove:<site>")
@@ -375,6 +404,9 @@ type c30Run struct {
 	// ownSeen[id|node]: logical time at which the registry last told that node
 	// that it owns id (its claim succeeded, or a get returned it as the owner)
 	ownSeen map[string]int64
+	// writer[id]: goroutine that created the current record or changed its owner
+	// (a successful claim, or a put over no record / another owner)
+	writer map[string]int64
 	// removals[id]: every removal of the record (time, function)
 	removals map[string][]c30Removal
 	// vanished[id|node]: the node's last claim lost and the look-up of the winner
@@ -579,6 +611,15 @@ func (v *c30View) op(kind int, id string, step func() (string, error)) error {
 			delete(r.ownSeen, ck)
 		}
 		effective := !strings.Contains(res, "(was none)")
+		if site == "grainPID.deactivate" {
+			if ph, ok := c30Fix.deactPhase.Load(c30Goid()); ok && !ph.(*atomic.Bool).Load() {
+				// this deactivate call has not got its OnDeactivate hook back yet
+				r.anomalyLocked(id, fpC30EarlyRemove+site)
+				res += " -- ANOMALY: the OnDeactivate hook of this deactivation has not returned yet"
+			}
+		}
+		w := r.writer[id]
+		delete(r.writer, id)
 		switch {
 		case !effective:
 		case site == "actorSystem.tryRemoteGrainActivation":
@@ -589,6 +630,11 @@ func (v *c30View) op(kind int, id string, step func() (string, error)) error {
 		case site != "actorSystem.tryPeerActivation" && !strings.Contains(res, "(was "+v.addr()+")"):
 			r.anomalyLocked(id, fpC30Removal+site+":foreign-record")
 			res += " -- ANOMALY: the record names another node"
+		case site != "grainPID.deactivate" && site != "actorSystem.tryRemoteGrainActivation" && w != 0 && w != c30Goid():
+			// a roll-back releases "the claim this call made": claim and roll-back
+			// run on one goroutine (the activation flight / the GrainIdentity call)
+			r.anomalyLocked(id, fpC30Removal+site+":not-its-own-claim")
+			res += " -- ANOMALY: this roll-back removes a record that another call wrote"
 		}
 		if hs := r.holderList(id); len(hs) > 0 {
 			r.anomalyLocked(id, fpC30Removal+site+":live")
@@ -598,6 +644,9 @@ func (v *c30View) op(kind int, id string, step func() (string, error)) error {
 		if err == nil {
 			r.lastWrite[ck] = "put"
 			r.lastWriteG[gk] = "put"
+			if strings.Contains(res, "(was none)") || strings.Contains(res, "OWNER CHANGED") {
+				r.writer[id] = c30Goid()
+			}
 			r.lastRemoval[id] = ""
 			if strings.Contains(res, "OWNER CHANGED") {
 				site := c30CallSite()
@@ -621,6 +670,7 @@ func (v *c30View) op(kind int, id string, step func() (string, error)) error {
 		if err == nil {
 			r.lastWrite[ck] = "claim"
 			r.lastWriteG[gk] = "claim"
+			r.writer[id] = c30Goid()
 			r.lastRemoval[id] = ""
 			if strings.HasSuffix(res, "claimed for "+v.addr()) {
 				r.ownSeen[ck] = ts
@@ -928,11 +978,31 @@ func (g *c30Grain) OnActivate(_ context.Context, props *GrainProps) error {
 		}
 		if len(nodes) > 1 {
 			if r.violFP == "" {
+				// is every conflicting instance on another node inside OnDeactivate?
+				othersLive, othersDraining := 0, []c30Holder{}
+				for h := range set {
+					if h.node == node {
+						continue
+					}
+					if r.draining[id][h] {
+						othersDraining = append(othersDraining, h)
+					} else {
+						othersLive++
+					}
+				}
+				a := r.anomaly[id]
 				r.violFP = "two-nodes-active"
 				r.violMsg = fmt.Sprintf("grain %s is active on %d nodes at once: holders (node, activation#) = %v", r.short(id), len(nodes), r.holderList(id))
-				if a := r.anomaly[id]; a != "" {
+				if a != "" {
 					r.violFP = a
 					r.violMsg += " -- first protocol anomaly for this identity: " + a
+				}
+				if othersLive == 0 && len(othersDraining) > 0 {
+					if a == "" {
+						a = "no-registry-anomaly"
+					}
+					r.violFP = fpC30Draining + a
+					r.violMsg = fmt.Sprintf("grain %s: activation #%d succeeded on node %d while %v (node, activation#) was still inside OnDeactivate (an instance is held until its OnDeactivate returns); holders = %v; first protocol anomaly for this identity: %s", r.short(id), g.act, node, othersDraining, r.holderList(id), a)
 				}
 			}
 		} else {
@@ -951,13 +1021,31 @@ func (g *c30Grain) OnDeactivate(_ context.Context, props *GrainProps) error {
 		fix.reg.note("stray_OnDeactivate")
 		return nil
 	}
+	h := c30Holder{g.node, g.act}
 	ts := r.clock.Add(1)
 	r.mu.Lock()
-	h := c30Holder{g.node, g.act}
 	was := r.holders[id][h]
-	delete(r.holders[id], h)
-	r.logLocked(ts, "n%d OnDeactivate(%s) activation #%d enter (was holder: %v); holders now %v", g.node, r.short(id), g.act, was, r.holderList(id))
+	if was {
+		if r.draining[id] == nil {
+			r.draining[id] = map[c30Holder]bool{}
+		}
+		r.draining[id][h] = true
+	}
+	r.logLocked(ts, "n%d OnDeactivate(%s) activation #%d enter (holder: %v; the instance is held until the hook returns, %d us)", g.node, r.short(id), g.act, was, r.c.DeactUs)
 	r.mu.Unlock()
+	if r.c.DeactUs > 0 && !r.quiet.Load() {
+		time.Sleep(time.Duration(r.c.DeactUs) * time.Microsecond)
+	}
+	ts = r.clock.Add(1)
+	r.mu.Lock()
+	delete(r.holders[id], h)
+	delete(r.draining[id], h)
+	r.logLocked(ts, "n%d OnDeactivate(%s) activation #%d exit; holders now %v", g.node, r.short(id), g.act, r.holderList(id))
+	r.mu.Unlock()
+	// tell the deactivate call running on this goroutine that its hook is back
+	if ph, ok := fix.deactPhase.Load(c30Goid()); ok {
+		ph.(*atomic.Bool).Store(true)
+	}
 	return nil
 }
 
@@ -980,6 +1068,9 @@ type c30Fixture struct {
 	sys   []*actorSystem
 	seq   atomic.Int64
 	deact atomic.Int64 // deactivate() calls in progress (prologue hooks)
+	// deactPhase: goroutine id of a running deactivate call -> *atomic.Bool
+	// "its OnDeactivate hook has returned"
+	deactPhase sync.Map
 }
 
 var (
@@ -1019,8 +1110,14 @@ func c30Fixtures(t *testing.T) *c30Fixture {
 	c30FixOnce.Do(func() {
 		f := &c30Fix
 		f.reg = &c30Registry{grains: map[string]*internalpb.Grain{}, rr: map[string]int{}, unexpected: map[string]int{}, events: make(chan *cluster.Event)}
-		c30DeactEnter = func(*grainPID) { f.deact.Add(1) }
-		c30DeactExit = func(*grainPID) { f.deact.Add(-1) }
+		c30DeactEnter = func(*grainPID) {
+			f.deact.Add(1)
+			f.deactPhase.Store(c30Goid(), new(atomic.Bool)) // false: OnDeactivate not back yet
+		}
+		c30DeactExit = func(*grainPID) {
+			f.deactPhase.Delete(c30Goid())
+			f.deact.Add(-1)
+		}
 		ctx := context.Background()
 		stopAll := func() {
 			for _, s := range f.sys {
@@ -1083,7 +1180,7 @@ func c30Exec(fix *c30Fixture) func(x *vfkit.X, c c30Case) {
 	return func(x *vfkit.X, c c30Case) {
 		ctx := context.Background()
 		seq := fix.seq.Add(1)
-		r := &c30Run{c: c, prefix: fmt.Sprintf("c30g%d-", seq), holders: map[string]map[c30Holder]bool{}, actCalls: map[string]int{}, actSeq: map[string]int{}, claimed: map[string]bool{}, claimers: map[string]map[int]bool{}, anomaly: map[string]string{}, lastWrite: map[string]string{}, lastWriteG: map[string]string{}, lastRemoval: map[string]string{}, ownSeen: map[string]int64{}, removals: map[string][]c30Removal{}, vanished: map[string]bool{}}
+		r := &c30Run{c: c, prefix: fmt.Sprintf("c30g%d-", seq), holders: map[string]map[c30Holder]bool{}, actCalls: map[string]int{}, actSeq: map[string]int{}, claimed: map[string]bool{}, claimers: map[string]map[int]bool{}, anomaly: map[string]string{}, draining: map[string]map[c30Holder]bool{}, lastWrite: map[string]string{}, lastWriteG: map[string]string{}, lastRemoval: map[string]string{}, ownSeen: map[string]int64{}, removals: map[string][]c30Removal{}, writer: map[string]int64{}, vanished: map[string]bool{}}
 		idents := make([]*GrainIdentity, c.Idents)
 		names := make([]string, c.Idents)
 		for i := range idents {
@@ -1235,6 +1332,9 @@ func c30Exec(fix *c30Fixture) func(x *vfkit.X, c c30Case) {
 		}
 		if sameNode > 0 {
 			x.Class("same_node_two_instances_observed")
+		}
+		if c.DeactUs > 0 {
+			x.Class("slow_ondeactivate")
 		}
 		r.mu.Lock()
 		for _, a := range r.anomaly {
@@ -1399,8 +1499,17 @@ func c30Exec(fix *c30Fixture) func(x *vfkit.X, c c30Case) {
 			fix.reg.mu.Lock()
 			rec := fix.reg.grains[key]
 			fix.reg.mu.Unlock()
-			if len(hs) != 1 {
+			// the property is stated over NODES: every holder must sit on one node
+			// (several instances on that one node are counted, not reported)
+			hnodes := map[int]bool{}
+			for _, h := range hs {
+				hnodes[h.node] = true
+			}
+			if len(hnodes) != 1 {
 				fail(fpFor(key, "probe-no-single-holder"), "after a successful AskGrain(%s) (reply %q) the holder set is %v", r.short(key), okReply, hs)
+			}
+			if len(hs) > 1 {
+				x.Class("probe_same_node_two_instances")
 			}
 			want := fix.reg.views[hs[0].node].peer
 			if rec == nil {
@@ -1409,8 +1518,14 @@ func c30Exec(fix *c30Fixture) func(x *vfkit.X, c c30Case) {
 			if rec.GetHost() != want.Host || int(rec.GetPort()) != want.RemotingPort {
 				fail(fpFor(key, "record-names-other-node"), "after a successful probe grain %s is active on node %d but the registry names %s", r.short(key), hs[0].node, c30Owner(rec))
 			}
-			if okReply != fmt.Sprintf("%d/%d", hs[0].node, hs[0].act) {
-				fail("reply-from-non-holder", "probe reply %q does not come from the holder %v", okReply, hs[0])
+			fromHolder := false
+			for _, h := range hs {
+				if okReply == fmt.Sprintf("%d/%d", h.node, h.act) {
+					fromHolder = true
+				}
+			}
+			if !fromHolder {
+				fail("reply-from-non-holder", "probe reply %q does not come from a holder %v", okReply, hs)
 			}
 			x.Class("probe_ok")
 		}
@@ -1442,7 +1557,7 @@ func TestVF_C30_lifecycle(t *testing.T) {
 	}
 	vfkit.Run(t, vfkit.Spec[c30Case]{
 		ID: "C30", Unit: "lifecycle",
-		Rule:       "case = 2-3 nodes, 2-6 threads pinned to nodes issuing 1-4 of {TellGrain, AskGrain, GrainIdentity(local/round-robin/random), PoisonPill via Tell/Ask (the grain deactivates)} on 1-2 fresh grain identities, per-node OnActivate failure script, registry fault plan (k-th operation of a kind from a node fails), stall plan and noise profile" + c30RuleTail,
+		Rule:       "case = 2-3 nodes, 2-6 threads pinned to nodes issuing 1-4 of {TellGrain, AskGrain, GrainIdentity(local/round-robin/random), PoisonPill via Tell/Ask (the grain deactivates; OnDeactivate takes a generated 0-20 ms and the instance is held until it returns)} on 1-2 fresh grain identities, per-node OnActivate failure script, registry fault plan (k-th operation of a kind from a node fails), stall plan and noise profile" + c30RuleTail,
 		Gen:        c30Gen(true),
 		Exec:       c30Exec(fix),
 		ReplayReps: 40,
